@@ -26,10 +26,17 @@ type oracleLog struct {
 	violations []viol
 	checked    map[string]int
 	out        *emitter
+	perKey     map[string]int
 }
 
 func (o *oracleLog) viol(prop, key, desc string) {
-	if len(o.violations) < 50 {
+	// at most 5 entries per (property, key): a frequent (for instance known) finding must never crowd
+	// out a different one
+	if o.perKey == nil {
+		o.perKey = map[string]int{}
+	}
+	o.perKey[prop+"|"+key]++
+	if o.perKey[prop+"|"+key] <= 5 && len(o.violations) < 400 {
 		o.violations = append(o.violations, viol{prop, key, desc, o.out.n})
 	}
 }
